@@ -32,6 +32,9 @@
 (*   ShiftExcess       ExpandSHIFT unbinds the last formal parameter       *)
 (*   IrpDoubleCleanup  IRP_Cleanup called twice after EXITM: NULL deref    *)
 (*   IrpPosNext        IRP_GetPos names the next argument (st.pdevs, C20)  *)
+(*   AllArgsLeadingEmpty  ComputeMacroStrings (after SHIFT) writes the     *)
+(*                     separator only once ALLARGS is non-empty: leading   *)
+(*                     empty arguments vanish from ALLARGS                 *)
 (* Every delivered statement also carries its POSITION (section 3, C20).   *)
 (*                                                                         *)
 (* DECLARATIVE SIDE: ExpandDecl(files) = the manual's textual substitution *)
@@ -50,7 +53,8 @@ CONSTANTS Fixed,      \* set of deviation names that are repaired in this instan
 
 C == INSTANCE CondAsm
 
-DevNames == {"EmptyBodyPop", "IrpcEmptyOnce", "TokenStraddle", "ShiftExcess", "IrpPosNext", "IrpDoubleCleanup"}
+DevNames == {"EmptyBodyPop", "IrpcEmptyOnce", "TokenStraddle", "ShiftExcess", "IrpPosNext", "IrpDoubleCleanup",
+             "AllArgsLeadingEmpty"}
 Fix(d) == d \in Fixed
 
 (***************************************************************************)
@@ -585,6 +589,12 @@ ExpandEXITM(st, l) ==
   ELSE LET t == Head(st.tags)
        IN [SetTop(st, [CleanupTag(t) EXCEPT !.isEmpty = TRUE]) EXCEPT !.cm = C!DoRestoreIFs(st.cm, t.ifLevel)]
 
+\* ComputeMacroStrings(): "if (AllArgs[0] != 0) strcat(",")" - no separator while nothing has been written yet
+RECURSIVE JoinAsCoded(_, _)
+JoinAsCoded(ps, acc) == IF ps = <<>> THEN acc
+                        ELSE JoinAsCoded(Tail(ps), (IF acc # <<>> THEN acc \o <<COMMA>> ELSE acc) \o Head(ps))
+AllArgsOf(ps) == IF Fix("AllArgsLeadingEmpty") THEN JoinWith(ps, COMMA) ELSE JoinAsCoded(ps, <<>>)
+
 FirstMacroTag(tags) == IF \E i \in DOMAIN tags : tags[i].kind = "MACRO"
                        THEN CHOOSE i \in DOMAIN tags : tags[i].kind = "MACRO" /\ \A j \in 1..(i-1) : tags[j].kind # "MACRO" ELSE 0
 ExpandSHIFT(st, l) ==
@@ -599,9 +609,11 @@ ExpandSHIFT(st, l) ==
                    na == IF Fix("ShiftExcess") THEN Len(ps) ELSE pc
                    t2 == [t EXCEPT !.params = ps, !.parCnt = pc,
                                    !.numArgs = IF t.usesNum THEN <<ToString(na)>> ELSE @,           \* ComputeMacroStrings
-                                   !.allArgs = IF t.usesAll THEN JoinWith(ps, COMMA) ELSE @]
+                                   !.allArgs = IF t.usesAll THEN AllArgsOf(ps) ELSE @]
                    s1 == [st EXCEPT !.tags[i] = t2]
-               IN IF excess /\ ~Fix("ShiftExcess") THEN Dev(s1, "ShiftExcess") ELSE s1
+                   s2 == IF t.usesAll /\ JoinAsCoded(ps, <<>>) # JoinWith(ps, COMMA) /\ ~Fix("AllArgsLeadingEmpty")
+                         THEN Dev(s1, "AllArgsLeadingEmpty") ELSE s1
+               IN IF excess /\ ~Fix("ShiftExcess") THEN Dev(s2, "ShiftExcess") ELSE s2
 
 FileNameOf(a) == Glue(Without(a, QUOTE))
 ExpandINCLUDE(st, l) ==
